@@ -345,7 +345,8 @@ impl<H: Hal, T: Transport> VirtIOSound<H, T> {
                 .as_ref()
                 .unwrap()
                 .get(jack_id as usize)
-                .unwrap()
+                // The jack info query can fail, in which case no jack info is known.
+                .ok_or(Error::IoError)?
                 .features,
         );
         if !jack_features.contains(JackFeatures::REMAP) {
